@@ -126,7 +126,7 @@ class SymStats:
     def __init__(self, stats_mod, vcf_mod, model):
         self.stats, self.vcf, self.model = stats_mod, vcf_mod, model
 
-    def run(self, content, only_snvs, chromosomes, block_list):
+    def run(self, content, only_snvs, chromosomes, block_list, sample=None):
         self.model.FILES.clear()
         self.model.FILES["in.vcf"] = content
         cap = _Capture()
@@ -134,7 +134,7 @@ class SymStats:
         self.stats.print = cap.print
         res = _Result()
         try:
-            self.stats.run_stats(vcf="in.vcf", tsv="tsv", block_list="bl" if block_list else None, gtf="gtf", only_snvs=only_snvs, chromosomes=chromosomes)
+            self.stats.run_stats(vcf="in.vcf", tsv="tsv", block_list="bl" if block_list else None, gtf="gtf", only_snvs=only_snvs, chromosomes=chromosomes, sample=sample)
         except Exception as ex:
             res.error = type(ex).__name__
             return res
@@ -149,7 +149,7 @@ class RealStats:
         self.stats = stats_mod
         self.dir = None  # scratch directory of the current job (set and removed by _Base.run / replay)
 
-    def run(self, content, only_snvs, chromosomes, block_list):
+    def run(self, content, only_snvs, chromosomes, block_list, sample=None):
         own = self.dir is None
         d = tempfile.mkdtemp(prefix="c12-", dir="/var/tmp") if own else self.dir
         res = _Result()
@@ -159,7 +159,7 @@ class RealStats:
                 f.write(content.text())
             try:
                 with contextlib.redirect_stdout(io.StringIO()):
-                    self.stats.run_stats(vcf=p, tsv=os.path.join(d, "tsv"), block_list=os.path.join(d, "bl") if block_list else None, gtf=os.path.join(d, "gtf"), only_snvs=only_snvs, chromosomes=chromosomes)
+                    self.stats.run_stats(vcf=p, tsv=os.path.join(d, "tsv"), block_list=os.path.join(d, "bl") if block_list else None, gtf=os.path.join(d, "gtf"), only_snvs=only_snvs, chromosomes=chromosomes, sample=sample)
             except Exception as ex:
                 res.error = type(ex).__name__
                 return res
@@ -365,7 +365,7 @@ class _Base(SubCheck):
         allrows = [r for r in res.rows if r[0] == "ALL"]
         check([r[0] for r in rows] == [x[0] for x in exp], "TSV: per-chromosome rows do not match the chromosomes of the file")
         for (c, d, lines, span), (_, got, smp) in zip(exp, rows):
-            check(smp == SAMPLE, "TSV: wrong sample column")
+            check(smp == getattr(self, "_reported_sample", SAMPLE), "TSV: wrong sample column")
             for f in COUNTED:
                 check(got[f] == d[f], "TSV: %s differs from an independent count over the file" % f)
             check(got["phased"] + got["unphased"] + got["singletons"] == got["heterozygous_variants"], "phased + unphased + singletons != heterozygous variants")
@@ -375,7 +375,7 @@ class _Base(SubCheck):
                 mine = [l for l in res.blocklist if l[1] == c]
                 check(len(mine) == len(lines), "block list: number of lines != number of phase sets")
                 for s, _, i, a, b, n in mine:
-                    check(s == SAMPLE, "block list: wrong sample column")
+                    check(s == getattr(self, "_reported_sample", SAMPLE), "block list: wrong sample column")
                     check(i in lines, "block list: line for a phase set that is not in the file")
                     check(n == lines[i][2], "block list: size of a phase set is wrong")
                     check(a == lines[i][0], "block list: start of a phase set is not its leftmost variant")
@@ -400,7 +400,8 @@ class _Base(SubCheck):
         n_none = sum(1 for r in recs if r["none"])
         desc = lambda: dict(calls=[(r["chrom"], r["cls"], "snv" if r["snv"] else "indel", r["key"][1] if r["key"] else None) for r in recs], none_genotype_calls=n_none)
         self.cover_input(e, recs, shape)
-        res = impl.run(content, only_snvs, chromosomes, True)
+        sample_arg = getattr(self, "_sample_arg", None)
+        res = impl.run(content, only_snvs, chromosomes, True, sample_arg)
         block_list = True
         crash = None
         if res.error is not None:
@@ -412,7 +413,7 @@ class _Base(SubCheck):
                 if r["key"] is not None and (r["snv"] or not only_snvs):
                     keys_by_chrom.setdefault(r["chrom"], set()).add(r["key"][1])
             mixed = any(None in ks and len(ks) > 1 for ks in keys_by_chrom.values())
-            res = impl.run(content, only_snvs, chromosomes, False)
+            res = impl.run(content, only_snvs, chromosomes, False, sample_arg)
             block_list = False
             e.check(res.error is None, "run_stats raised %s" % res.error, lambda: dict(desc(), cause="crash"))
             e.cover("crash only with --block-list")
@@ -515,6 +516,79 @@ class Counts(_Base):
             e.cover("HP encoding")
 
 
+class Samples(Counts):
+    """Two-sample VCF: the second column holds solver-chosen calls of its own (other genotypes, other phase sets).  The
+    report has to be about the sample --sample names (the first column without the option) and about that sample only."""
+
+    name = "samples"
+    required_cover = ["second sample reported", "first sample reported by default", "the two samples differ in what is phased", "ALL row", "phase set with >= 2 members"]
+    OTHER = "s2"
+    MENU_B = ["hom", "het", "ph"]
+
+    def shapes(self, tier):
+        out = []
+        for n in ([(2, 0), (2, 1)] if tier == "quick" else [(2, 0), (3, 0), (2, 1), (2, 2)]):
+            for tag in ("PS", "HP"):
+                for which in ("default", "first", "second"):
+                    out.append(dict(n=list(n), tag=tag, dot=False, only_snvs=False, chromosomes=None, snv=False, menu=["hom", "het", "ph"], which=which))
+        return out
+
+    def bounds(self, tier):
+        sh = self.shapes(tier)
+        return "%d shapes: two-sample VCF, <= %d records on <= 2 chromosomes, per record and sample a solver-chosen call class of %s with a solver-chosen phase-set id, PS and HP encodings; --sample absent / first sample / second sample" % (len(sh), max(sum(s["n"]) for s in sh), self.MENU_B)
+
+    def build_input(self, e, shape):
+        from vf.models.vcfread_model import RecordSpec, VcfContent
+
+        tag = shape["tag"]
+        which = shape["which"]
+        self._sample_arg = {"default": None, "first": SAMPLE, "second": self.OTHER}[which]
+        self._reported_sample = self.OTHER if which == "second" else SAMPLE
+        e.cover("second sample reported" if which == "second" else "first sample reported by default" if which == "default" else "first sample named")
+        cols = ([], [])
+        specs = []
+        for ci, cnt in enumerate(shape["n"]):
+            chrom = CHROMS[ci]
+            prev = None
+            used = [0, 0]
+            for k in range(cnt):
+                nm = "%d.%d" % (ci, k)
+                pos = e.int("pos" + nm, 0, 100000)
+                if prev is not None:
+                    e.assume(prev < pos)
+                prev = pos
+                texts = []
+                for col in (0, 1):
+                    cls = e.choice("cls%s%s" % ("AB"[col], nm), self.MENU_B)
+                    j = None
+                    if cls in NEEDS_ID:
+                        j = e.choice("id%s%s" % ("AB"[col], nm), range(min(used[col] + 1, 2)))
+                        used[col] = max(used[col], j + 1)
+                    is_het, is_ph, is_none = CLASSES[cls]
+                    idv = (ID_VALUES[j] + 100 * col) if j is not None else None  # the two samples never share a phase-set id
+                    cols[col].append(dict(chrom=chrom, pos=pos, snv=True, cls=cls, het=is_het, ph=is_ph, none=is_none, key=("id", idv) if is_ph else None))
+                    if tag == "PS":
+                        gt = {"hom": "0/0", "het": "0/1", "ph": "0|1"}[cls]
+                        extra = [("PS", str(idv))] if idv is not None else []
+                    else:
+                        gt = {"hom": "0/0", "het": "0/1", "ph": "0/1"}[cls]
+                        extra = [("HP", "%d-1,%d-2" % (idv, idv))] if idv is not None else []
+                    texts.append((gt, extra))
+                specs.append(RecordSpec(chrom, pos, "A", "C", texts[0][0], texts[0][1], more=[texts[1]]))
+        if [(r["cls"], r["key"]) for r in cols[0]] != [(r["cls"], r["key"] and ("id", r["key"][1] - 100)) for r in cols[1]]:
+            e.cover("the two samples differ in what is phased")
+        content = VcfContent(SAMPLE, [(c, None) for c in CHROMS], specs, more_samples=[self.OTHER])
+        return cols[1] if which == "second" else cols[0], content
+
+    def cover_input(self, e, recs, shape):
+        sets = {}
+        for r in recs:
+            if r["het"] and r["ph"]:
+                sets.setdefault((r["chrom"], r["key"]), []).append(r)
+        if any(len(v) >= 2 for v in sets.values()):
+            e.cover("phase set with >= 2 members")
+
+
 class Blocks(_Base):
     name = "blocks"
     required_cover = ["ALL row", "interleaved phase sets", "nested phase sets", "three phase sets on one chromosome", "phase set split into two pieces", "NG50 computed"]
@@ -558,7 +632,7 @@ class Blocks(_Base):
                         e.cover("interleaved phase sets")
 
 
-SUBCHECKS = {c.name: c for c in [Counts(), Blocks()]}
+SUBCHECKS = {c.name: c for c in [Counts(), Blocks(), Samples()]}
 
 if __name__ == "__main__":
     import sys
